@@ -25,10 +25,10 @@ def define(pid, propfile, insts, drivers, text, rule, assumptions=(), diag=None,
         if ck.setup_generic():
             if propfile:
                 ck.compile_properties(propfile)
-            if src:
-                ck.source_tie()
             need_tables = bool(insts) or any(d != "crc" for d, _ in drivers)
             ok_tables = ck.tables() if need_tables else True
+            if src:
+                ck.source_tie(with_tables=bool(need_tables and ok_tables))
             if ok_tables:
                 for inst in insts:
                     ok, where, log = ck.compile_instance(inst)
@@ -111,4 +111,4 @@ define("C14", "Properties/C14.v", [], [("msg", [])],
        "every message of the corpus: assign every existing name (public, private), property names and new names with 4 value kinds; snapshot of __dict__, str(), serialize(), identity, payload, repr() before/after")
 define("C15", "Properties/C15.v", ["C15_inst.v"], [("msg", [])],
        "Theorems: message number = first 12 payload bits, 4076 sub-type = bits 15..22, identity string as specified, rest of payload ignored; unknown numbers give a stub keeping the payload that serialises to the same frame and re-parses to the same stub; decoded DF002 / IDF002 equal the transmitted numbers for implemented types. Per run: routing reaches every table entry, MSM flag true on all 49 implemented MSM numbers and false outside 1070-1229 and for 4076 sub-types, every layout starts with the 12-bit number field.",
-       "all 4096 message numbers x 2-3 payload variants, all 256 sub-types of 4076 x 2, one payload per implemented type")
+       "all 4096 message numbers x 2-3 payload variants, all 256 sub-types of 4076 x 2, one payload per implemented type", src=True)
